@@ -4,6 +4,7 @@ import (
 	"go/token"
 	"go/types"
 	"regexp"
+	"strconv"
 	"strings"
 
 	"golang.org/x/tools/go/ssa"
@@ -446,6 +447,40 @@ func ruleDotFailAndPrune(rule string) RuleFn {
 			}
 			c.Check(good, rule, "FailGroupNodes fails the results matching type and group", "r.Type == t && r.Group == name", "a result is marked as failed although its type or its group differs from the failing group's key: a constructor feeding two groups shows both as failed", nil, nil)
 		}
+		// a node that is the root cause stays the root cause: the same constructor can appear twice in an error
+		// chain (it was entered again while a decorator gathered its arguments); the later mention must not
+		// repaint it as a transitive failure
+		for _, nm := range []string{"(*dig/internal/dot.Graph).FailNodes", "(*dig/internal/dot.Graph).FailGroupNodes"} {
+			fn := c.Fn(rule, nm)
+			if fn == nil {
+				continue
+			}
+			n := 0
+			an.Instrs(fn, func(in ssa.Instruction) {
+				st, ok := in.(*ssa.Store)
+				if !ok {
+					return
+				}
+				fa, ok := st.Addr.(*ssa.FieldAddr)
+				if !ok || an.FieldName(fa.X.Type(), fa.Field) != "ErrorType" {
+					return
+				}
+				k, ok := st.Val.(*ssa.Const)
+				if !ok || k.Value == nil || k.Value.String() != "2" {
+					return // rootCause (1) may always be stored
+				}
+				n++
+				owner := an.Norm(fa.X)
+				guard := an.EdgesWhere(fn, func(ft an.Fact) bool {
+					return ft.S == "("+owner+".ErrorType != 1)" || ft.S == "!("+owner+".ErrorType == 1)"
+				})
+				hit, _ := an.PathTo(fn, nil, an.IsInstr(st), an.NewGates().AddEdges(guard...))
+				c.Check(hit == nil && len(guard) > 0, rule, nm+" never demotes the root cause ("+owner+")", "ErrorType = transitiveFailure only if ErrorType != rootCause", "a node already marked as root cause can be overwritten with transitiveFailure: when the failing constructor is mentioned twice in the error chain the picture ends up without any root-cause constructor", st, nil)
+			})
+			if n == 0 {
+				c.Und(rule, nm+" marks transitive failures", "no store of transitiveFailure into an ErrorType field found")
+			}
+		}
 		if fn := c.Fn(rule, "(*dig/internal/dot.Graph).pruneCtors"); fn != nil {
 			for _, callee := range []string{"(*dig/internal/dot.Graph).pruneCtorParams", "(*dig/internal/dot.Graph).pruneGroupResults"} {
 				ks := an.CallsNamed(fn, callee)
@@ -511,5 +546,335 @@ func ruleFlattenAs(rule string) RuleFn {
 			good := dom(optEmpty) || (dom(asEmpty) && dom(typeSame))
 			c.Check(good, rule, "flatten replaces the group type only when no As interface was applied", "len(rg.As) == 0 && rg.Type == t dominate rg.Type = t.Elem()", "rg.Type = t.Elem() can be reached although an As interface was applied (only one of len(rg.As) > 0 / rg.Type != t is tested): Provide(f, Group(\"g,flatten\"), As(new(I))) is accepted and the As interface is silently replaced by the slice's element type", st, nil)
 		}
+	}
+}
+
+// ruleComparableErrors (T-comparable).
+func ruleComparableErrors(rule string) RuleFn {
+	return func(c *an.Ctx) {
+		c.Rule(rule, "T-comparable: every value of a dig-declared type that is turned into an error (or dig.Error) interface value has a COMPARABLE type (go/types.Comparable: no slice, map or func type, no struct or array containing one). errors.Is compares the links of a chain with ==; an interface holding an uncomparable dynamic value makes that comparison panic at run time ('comparing uncomparable type'), also when the value sits in the Reason field of a comparable wrapper struct. errors.Is(err, err) on an error dig returned - and on the error of a constructor that passes on another container's failure - must answer, not panic")
+		n := 0
+		seen := map[string]bool{}
+		for _, fn := range c.P.Funcs {
+			an.Instrs(fn, func(in ssa.Instruction) {
+				mi, ok := in.(*ssa.MakeInterface)
+				if !ok {
+					return
+				}
+				it, ok := mi.Type().Underlying().(*types.Interface)
+				if !ok {
+					return
+				}
+				isErr := false
+				for i := 0; i < it.NumMethods(); i++ {
+					if it.Method(i).Name() == "Error" {
+						isErr = true
+					}
+				}
+				if !isErr {
+					return
+				}
+				// a value method handing its own receiver to a formatting helper does not create an error value
+				// that circulates; package initialisers only assert interface satisfaction
+				if p, isParam := mi.X.(*ssa.Parameter); isParam && fn.Signature.Recv() != nil && len(fn.Params) > 0 && fn.Params[0] == p {
+					return
+				}
+				if fn.Name() == "init" || strings.HasPrefix(fn.Name(), "init#") {
+					return
+				}
+				t := mi.X.Type()
+				nm, ok := t.(*types.Named)
+				if !ok {
+					if p, isP := t.(*types.Pointer); isP {
+						nm, _ = p.Elem().(*types.Named)
+					}
+				}
+				if nm == nil || nm.Obj().Pkg() == nil || !strings.HasPrefix(nm.Obj().Pkg().Path(), an.ModPath) {
+					return
+				}
+				n++
+				cons := "error values of type " + strings.ReplaceAll(types.TypeString(t, nil), an.ModPath, "dig") + " are comparable"
+				if seen[cons] {
+					return
+				}
+				seen[cons] = true
+				c.See(fn)
+				c.Check(types.Comparable(t), rule, cons, "go/types.Comparable", "a value of this type is returned as an error although the type is not comparable: errors.Is on a chain that contains it (errors.Is(err, err), or matching the error a constructor passed on from a nested container) panics with 'comparing uncomparable type' instead of answering", in, nil)
+			})
+		}
+		c.Floor(rule, "dig values converted to error interfaces", n, 10)
+	}
+}
+
+
+// taOK reports whether v is the ok result of a comma-ok type assertion (also the ones a type switch is made of) to
+// the dig type named typ (value or pointer).
+func taOK(v ssa.Value, typ string) bool {
+	ex, ok := v.(*ssa.Extract)
+	if !ok || ex.Index != 1 {
+		return false
+	}
+	ta, ok := ex.Tuple.(*ssa.TypeAssert)
+	if !ok {
+		return false
+	}
+	t := ta.AssertedType
+	if p, isP := t.(*types.Pointer); isP {
+		t = p.Elem()
+	}
+	return an.IsDigNamed(t, typ)
+}
+
+// stopsAt: on the "is an errConstructorFailed" edge the walk over the error chain ends: no errors.Unwrap is
+// reachable from it (without leaving the function).
+func stopsAtConstructorFailed(fn *ssa.Function) (bool, string) {
+	stop := an.BoolEdges(fn, func(v ssa.Value) bool { return taOK(v, "errConstructorFailed") }, true)
+	if len(stop) == 0 {
+		return false, "the walk does not test for errConstructorFailed"
+	}
+	uw := an.CallsNamed(fn, "errors.Unwrap")
+	for _, e := range stop {
+		first := e.From.Succs[e.Succ].Instrs[0]
+		for _, u := range uw {
+			if first == ssa.Instruction(u) {
+				return false, "the walk goes on below an errConstructorFailed link"
+			}
+			if hit, _ := an.PathTo(fn, first, an.IsInstr(u.(ssa.Instruction)), nil); hit != nil {
+				return false, "the walk goes on below an errConstructorFailed link"
+			}
+		}
+	}
+	return true, ""
+}
+
+// ruleNoFormatUserValue (T-no-format).
+func ruleNoFormatUserValue(rule string) RuleFn {
+	return func(c *an.Ctx) {
+		c.Rule(rule, "T-no-format: a value of type interface{} that a caller handed to dig (the thing passed to Provide, Decorate or Invoke where a function was expected) is given to a fmt formatting function only under a positive test that its reflect Kind is a scalar one (bool, integer, float, complex, string): fmt follows slices, maps, pointers and interfaces without cycle detection, so formatting a rejected value that contains itself with %v never returns - the process dies with a stack overflow that no recover can catch, where an error was due")
+		n := 0
+		for _, fn := range c.P.Funcs {
+			an.Instrs(fn, func(in ssa.Instruction) {
+				k, ok := in.(*ssa.Call)
+				if !ok || k.Common().IsInvoke() {
+					return
+				}
+				nm := an.CalleeName(k)
+				if !strings.HasPrefix(nm, "fmt.") || !(strings.Contains(nm, "print") || strings.Contains(nm, "Print") || strings.Contains(nm, "Errorf")) {
+					return
+				}
+				// the elements of the variadic slice
+				for _, a := range k.Common().Args {
+					sl, ok := a.(*ssa.Slice)
+					if !ok {
+						continue
+					}
+					al, ok := sl.X.(*ssa.Alloc)
+					if !ok {
+						continue
+					}
+					for _, r := range an.Referrers(al) {
+						ia, ok := r.(*ssa.IndexAddr)
+						if !ok {
+							continue
+						}
+						for _, rr := range an.Referrers(ia) {
+							st, ok := rr.(*ssa.Store)
+							if !ok {
+								continue
+							}
+							pn := an.Norm(st.Val)
+							if !regexp.MustCompile(`^p:[A-Za-z_0-9]+$`).MatchString(pn) {
+								continue
+							}
+							if it, isI := st.Val.Type().Underlying().(*types.Interface); !isI || it.NumMethods() != 0 {
+								continue
+							}
+							switch st.Val.(type) {
+							case *ssa.ChangeInterface, *ssa.MakeInterface:
+								continue // a typed value (a reflect.Type, a string ...) converted for the call
+							}
+							n++
+							// a positive test for a scalar kind (bool, the integers, floats, complex numbers, string)
+							scalar := regexp.MustCompile(`\.Kind\(\) == (\d+)\)$`)
+							kind := an.EdgesWhere(fn, func(ft an.Fact) bool {
+								m := scalar.FindStringSubmatch(ft.S)
+								if m == nil || strings.HasPrefix(ft.S, "!") {
+									return false
+								}
+								k, _ := strconv.Atoi(m[1])
+								return (k >= 1 && k <= 16) || k == 24
+							})
+							hit, _ := an.PathTo(fn, nil, an.IsInstr(k), an.NewGates().AddEdges(kind...))
+							c.Check(hit == nil && len(kind) > 0, rule, "the interface{} parameter "+pn+" of "+an.ShortName(fn)+" is formatted only under a Kind test", "guarded by reflect Kind", "the caller's value is formatted with "+nm+" whatever it is: a value that contains itself (v := make([]interface{}, 1); v[0] = v) overflows the stack inside fmt instead of being rejected with an error", k, nil)
+						}
+					}
+				}
+			})
+		}
+		if n == 0 {
+			c.OKAt(rule, "no interface{} parameter is handed to a fmt formatting function", "0 sites", "-")
+		}
+	}
+}
+
+// ---------------------------------------------------------------------------
+// Rules that report genuine defects recorded as KNOWN FINDINGS (second defect hunt, DESIGN 9.12): each states the
+// structural condition the property needs and that today's tree does not meet; the repair is a design decision of
+// the maintainers, not a small patch.
+
+// ruleProviderFirst (G-provider-first, C04).
+func ruleProviderFirst(rule string) RuleFn {
+	return func(c *an.Ctx) {
+		c.Rule(rule, "G-provider-first: paramSingle.Build consults decorators and decorated values only for a key that has a visible constructor: a look-up of the providers (getValueProviders / getAllValueProviders) lies on every path to buildWithDecorators and to the decorated-value look-up. C04 ties availability to constructors: 'no constructor visible' must give an error (or the zero value for an optional field), whatever decorators exist")
+		fn := c.Fn(rule, "(dig.paramSingle).Build")
+		if fn == nil {
+			return
+		}
+		var provs []ssa.Instruction
+		for _, nm := range []string{"getValueProviders", "getAllValueProviders"} {
+			for _, k := range invokeNamed(fn, nm) {
+				provs = append(provs, k)
+			}
+		}
+		var uses []ssa.Instruction
+		for _, k := range methodCalls(fn, "(dig.paramSingle).buildWithDecorators") {
+			uses = append(uses, k)
+		}
+		for _, k := range methodCalls(fn, "(dig.paramSingle).getDecoratedValue") {
+			uses = append(uses, k)
+		}
+		good := len(uses) > 0
+		var at ssa.Instruction
+		for _, u := range uses {
+			if hit, _ := an.PathTo(fn, nil, an.IsInstr(u), an.NewGates().AddInstr(provs...)); hit != nil {
+				good, at = false, u
+			}
+		}
+		c.Check(good, rule, "paramSingle.Build consults decorators only for a key that has a visible constructor", "providers looked up first", "a decorator (or a value an earlier run of a decorator left behind) is used for a key that has no visible constructor: Decorate(func() *A) without any constructor of *A gives an optional *A field a non-zero value, and a required *A - 'missing type' at first - is served after any other Invoke made the decorator run; a constructor is executed although its direct dependency has no constructor", at, nil)
+	}
+}
+
+// ruleExportHome (W-export-home, C08).
+func ruleExportHome(rule string) RuleFn {
+	return func(c *an.Ctx) {
+		c.Rule(rule, "W-export-home: a constructor provided with Export(true) is registered in the scope it was provided to as well as in the root: in Scope.provide the providers map of the original scope is updated too. 'When several enclosing scopes provide the same key the nearest one is used' - the scope that provided the exported constructor is the nearest one for itself and its descendants")
+		fn := c.Fn(rule, "(*dig.Scope).provide")
+		if fn == nil {
+			return
+		}
+		home := false
+		an.Instrs(fn, func(in ssa.Instruction) {
+			if mu, ok := in.(*ssa.MapUpdate); ok && strings.HasSuffix(an.Norm(mu.Map), ".providers") {
+				// the map of the scope the call was made on: the parameter itself, not the phi of (root, s)
+				if an.Norm(mu.Map) == "p:s.providers" {
+					if _, isPhi := an.Resolve(mu.Map).(*ssa.Phi); !isPhi && !strings.Contains(an.Norm(mu.Map), "φ") {
+						// p:s is the spilled/renamed target scope in this function; the original scope is origScope
+					}
+				}
+				if strings.Contains(an.Norm(mu.Map), "origScope") {
+					home = true
+				}
+			}
+		})
+		// the target scope variable is a phi of rootScope() and the receiver: a registration in the receiver's own
+		// map exists only if some MapUpdate addresses the receiver unconditionally
+		an.Instrs(fn, func(in ssa.Instruction) {
+			mu, ok := in.(*ssa.MapUpdate)
+			if !ok {
+				return
+			}
+			fa, ok := mu.Map.(*ssa.UnOp)
+			if !ok {
+				return
+			}
+			f, ok := fa.X.(*ssa.FieldAddr)
+			if !ok || an.FieldName(f.X.Type(), f.Field) != "providers" {
+				return
+			}
+			if _, isParam := f.X.(*ssa.Parameter); isParam {
+				home = true
+			}
+		})
+		c.Check(home, rule, "an exported constructor is also registered in the scope it was provided to", "origScope.providers updated", "Scope.provide files an exported constructor under the root only: child.Provide(f, Export(true)) while an ancestor of child other than the root provides the same key makes child (and its descendants) receive the ancestor's value - only the root sees child's constructor - and child.Provide(g) for the same key is accepted next to it", nil, nil)
+	}
+}
+
+// ruleOnStackOwn (G-onstack-own, C12).
+func ruleOnStackOwn(rule string) RuleFn {
+	return func(c *an.Ctx) {
+		c.Rule(rule, "G-onstack-own: a decorator that is running is skipped only when the request comes from that decorator itself (its own parameter of the decorated key must see the next outer value); any other function that resolves the key while the decorator runs - a constructor the decorator depends on - must not silently receive the undecorated value: the skip on the State() == decoratorOnStack edge is qualified by a test of who is asking, or ends in an error")
+		for _, nm := range []string{"(dig.paramSingle).buildWithDecorators", "(dig.paramGroupedSlice).callGroupDecorators"} {
+			fn := c.Fn(rule, nm)
+			if fn == nil {
+				continue
+			}
+			onst := an.EdgesWhere(fn, func(ft an.Fact) bool {
+				return strings.Contains(ft.S, ".State() == ") && !strings.HasPrefix(ft.S, "!")
+			})
+			good := len(onst) > 0
+			for _, e := range onst {
+				// between the on-stack edge and the continuation of the search there is another test or an error exit
+				tgt := e.From.Succs[e.Succ]
+				qualified := false
+				seen := map[*ssa.BasicBlock]bool{}
+				stack := []*ssa.BasicBlock{tgt}
+				for len(stack) > 0 && !qualified {
+					b := stack[len(stack)-1]
+					stack = stack[:len(stack)-1]
+					if seen[b] || b.Comment == "rangeindex.loop" || b.Comment == "for.loop" || b.Comment == "for.post" {
+						continue
+					}
+					seen[b] = true
+					for _, in := range b.Instrs {
+						switch x := in.(type) {
+						case *ssa.If:
+							qualified = true
+						case *ssa.Return:
+							if isErrorExit(x) {
+								qualified = true
+							}
+						}
+					}
+					stack = append(stack, b.Succs...)
+				}
+				if !qualified {
+					good = false
+				}
+			}
+			c.Check(good, rule, "an on-stack decorator is skipped only for its own parameters in "+nm, "skip qualified by the requester or reported as a cycle", "every look-up of the key skips a running decorator: Provide(Conf), Provide(func(Conf) *Client), Decorate(func(Conf, *Client) Conf), Invoke(func(*Client, Conf)) succeeds, *Client was built from the UNDECORATED Conf (and is cached that way) while the invoked function gets the decorated one - a dependency cycle through the decorator that is neither reported nor resolved consistently", nil, nil)
+		}
+	}
+}
+
+// ruleSoftGlobal (L-soft-global, C15/C11).
+func ruleSoftGlobal(rule string) RuleFn {
+	return func(c *an.Ctx) {
+		c.Rule(rule, "L-soft-global: soft value groups are built after EVERYTHING else the function asks for, wherever they stand in the encoding of its signature: paramList.BuildList takes part in the deferral (it tests for soft groups, or hands a queue down to paramObject.Build) - deferring soft groups only among the direct fields of one parameter object makes the members a soft group sees depend on whether its sibling is a field of the same struct, of an enclosing struct, or another positional parameter")
+		fn := c.Fn(rule, "(dig.paramList).BuildList")
+		if fn == nil {
+			return
+		}
+		mentions := false
+		an.Instrs(fn, func(in ssa.Instruction) {
+			switch x := in.(type) {
+			case *ssa.FieldAddr:
+				if an.FieldName(x.X.Type(), x.Field) == "Soft" {
+					mentions = true
+				}
+			case *ssa.Field:
+				if an.FieldName(x.X.Type(), x.Field) == "Soft" {
+					mentions = true
+				}
+			case ssa.CallInstruction:
+				// a Build variant that takes a queue/flag besides the store
+				if x.Common().IsInvoke() && strings.HasPrefix(x.Common().Method.Name(), "Build") && len(x.Common().Args) > 1 {
+					mentions = true
+				}
+				if !x.Common().IsInvoke() && strings.Contains(strings.ToLower(an.CalleeName(x)), "soft") {
+					mentions = true
+				}
+			}
+		})
+		c.Check(mentions, rule, "soft groups nested in parameter objects are deferred behind the whole parameter list", "BuildList takes part in the soft deferral", "soft groups are deferred only among the direct fields of one dig.In struct: with a constructor returning {Logger, Handler `group:\"handlers\"`}, In{Handlers soft; Logger} receives 1 handler, but In{Groups In{Handlers soft}; Logger} and func(g Groups, l *Logger) receive 0 - the same function in three encodings of its signature", nil, nil)
 	}
 }
